@@ -2,11 +2,12 @@
 
 Monitor shape: post-conditions on the real AESxCBC obtained through get_symmetric_encryption_implementation,
 plus an independent recomputation of every ciphertext (hand-written PKCS7 + the `cryptography` AES-CBC primitive
-driven directly with the IV observed in the ciphertext), plus a process-wide IV-uniqueness set.
+driven directly with the IV observed in the ciphertext), plus a process-wide (key, IV) uniqueness set and 20 000 encryptions of one (key, message) pair.
 """
 from vlib.common import fp
 
 LEVEL = "exploration"
+INSITU_OWNED = ("insitu:aes",)
 KEY_LENGTHS = (16, 24, 32)
 ALIASES = ("AES-CBC", "aes-cbc", "AES_CBC", "aescbc", "AesCbc")
 
@@ -58,10 +59,10 @@ class Mon:
         if c1 == c2:
             acc.violation(f"aes:not-randomized:{mclass}", "two encryptions of (k, m) are equal", case)
         for c in (c1, c2):
-            iv = c[:16]
-            if iv in self.ivs:
-                acc.violation("aes:iv-reuse", "IV seen twice in this process", dict(case, iv=iv))
-            self.ivs.add(iv)
+            pair = (key, c[:16])
+            if pair in self.ivs:
+                acc.violation("aes:iv-reuse", "the same (key, IV) pair was used twice in this process", dict(case, iv=c[:16]))
+            self.ivs.add(pair)
             acc.count("iv.checked")
         try:
             back = ske.Decrypt(key, c1)
@@ -191,6 +192,19 @@ def run_shard(spec, acc, ctx):
                 okl = KEY_LENGTHS[(KEY_LENGTHS.index(kl) + 1 + t % 2) % 3]
                 c = ske.Encrypt(key, rng.randbytes(t % 40))
                 expect_value_error(acc, "other-valid-key-length-dec", lambda: ske.Decrypt(rng.randbytes(okl), c))
+        # many encryptions of ONE (key, message): all ciphertexts pairwise different (catches an IV source that
+        # cycles or is re-seeded, which two consecutive calls cannot show)
+        for kl in KEY_LENGTHS:
+            ske = cls(key_length=kl)
+            key, m = rng.randbytes(kl), rng.randbytes(rng.choice([0, 5, 16, 40]))
+            n = 20000
+            seen = set()
+            for _ in range(n):
+                seen.add(ske.Encrypt(key, m))
+            acc.count("repeat_encryptions", n)
+            if len(seen) != n:
+                acc.violation("aes:repeated-ciphertext", f"{n} encryptions of one (key, message) produced only "
+                                                         f"{len(seen)} different ciphertexts", {"key": key, "message": m})
         # tampered / malformed ciphertexts are refused or at least never yield the message
         ske = cls(key_length=16)
         key = rng.randbytes(16)
@@ -236,7 +250,8 @@ def finish(m, tier, seed):
                 "cases evaluate the oracle (non-trivial); distinct = distinct generator coordinates.",
         "exhaustive": False,
         "message_lengths_seen": [lens[0], lens[-1], len(lens)] if lens else [],
-        "distinct_ivs_checked": c.get("iv.checked", 0),
+        "key_iv_pairs_checked": c.get("iv.checked", 0),
+        "encryptions_of_one_key_message_pair": c.get("repeat_encryptions", 0),
         "wrong_key": {"raised": c.get("dec.wrong_key.raised", 0), "returned_other": c.get("dec.wrong_key.returned", 0)},
         "contract_checks": {k[9:]: v for k, v in c.items() if k.startswith("contract.")},
         "insitu_contract_evaluations": {k: v for k, v in c.items() if k.startswith("insitu.")},
